@@ -225,6 +225,13 @@ Theorem c11_task_end_gives_server_back : forall o st s obs, fin_balanced (holds 
 Proof. exact handle_bytes_balanced. Qed.
 Print Assumptions c11_task_end_gives_server_back.
 
+(** ** Statement caching on: Closes of named statements — the sender's own names, another client's, the pooler's
+    PGCAT_n — are answered by the pooler; a batch made of them forwards nothing, so the statements a backend session
+    holds are unchanged by them. *)
+Theorem c11_named_close_answered_locally : forall xs, forallb named_close xs = true -> fst (sync_walk true xs false []) = false.
+Proof. exact named_closes_local. Qed.
+Print Assumptions c11_named_close_answered_locally.
+
 (** ** Client bytes alone never make the task wait on its server: a step blocks only if the
     backend leaves a forwarded message unanswered, or in the recorded class F21c (COPY started
     by an Execute, then CopyDone/CopyFail). *)
